@@ -484,11 +484,18 @@ POOL_CLEAN = dict(region='pool_clean_dir', file='cmdline/pool.c', begin='static 
                   max_lines=125, expect_loops=1, raw=True)
 
 
+POOL_STRUCT = dict(region='pool_struct', file='cmdline/pool.c', begin='struct snapraid_pool {', include_begin=True, end='struct snapraid_pool* pool_alloc(', max_lines=14, expect_loops=0, raw=True)
+POOL_MAKE_LINK = dict(region='pool_make_link', file='cmdline/pool.c', begin='static void make_link(tommy_hashdyn* poolset', include_begin=True, end='void state_pool(struct snapraid_state* state)', max_lines=110, expect_loops=0, raw=True)
+
+
 def pool_obs():
     return [Ob('pool.clean_dir', 'harness/h_pool.c', 'h_pool_clean_dir', inject=[POOL_CLEAN], unwind=7, unwindset=['clean_dir:2', 'clean_dir.0:7'], object_bits=12, small_path=True, timeout=900, mem=8, cost=5, kind='bounded',
                bound='a pool tree of at most 3 entries in the root, each directory holding at most one link (shape in harness/h_pool.c); directories nested deeper are handled by the same code but are outside the bound, every combination of absent / link / directory',
                functions=['clean_dir (cmdline/pool.c, whole function extracted verbatim; opendir / readdir / lstat / rmdir / closedir / pathprint / pathslash routed to stubs)'],
-               note='every combination and order of links, foreign files and directories; rmdir failing or not')]
+               note='every combination and order of links, foreign files and directories; rmdir failing or not'),
+            Ob('pool.make_link', 'harness/h_poollink.c', 'h_pool_make_link', inject=[POOL_STRUCT, POOL_MAKE_LINK], unwind=6, small_path=True, timeout=600, mem=6, cost=2,
+               functions=['make_link + struct snapraid_pool (cmdline/pool.c, extracted verbatim; file system, index and path building routed to stubs)'],
+               note='a link already present or not, with any time-stamp and target; share directory or not; every outcome of remove / mkancestor / symlink (EEXIST or other) / lmtime')]
 
 
 def dup_obs():
